@@ -342,6 +342,10 @@ def lenDown : E2 → Option E2
 
 /-! ## the old fragment inside the new language -/
 
+def isLit : E2 → Option Int
+  | .lit k => some k
+  | _ => none
+
 def toOld : E2 → Option (Nat × Dask.RelExpr.E)
   | .src j => some (j, .src)
   | .proj cs f => (toOld f).map (fun je => (je.1, .proj cs je.2))
@@ -349,13 +353,17 @@ def toOld : E2 → Option (Nat × Dask.RelExpr.E)
   | .filter f p => (toOld f).bind (fun jf => (toOld p).bind (fun jp =>
       if jf.1 = jp.1 then some (jf.1, .filter jf.2 jp.2) else none))
   | .assign f n v => (toOld f).bind (fun jf =>
-      match v with
-      | .lit k => some (jf.1, .assign jf.2 n (.lit k))
-      | _ => (toOld v).bind (fun jv => if jf.1 = jv.1 then some (jf.1, .assign jf.2 n jv.2) else none))
-  | .bin op a (.lit k) => (toOld a).map (fun ja => (ja.1, .bin op ja.2 (.lit k)))
-  | .bin op (.lit k) b => (toOld b).map (fun jb => (jb.1, .bin op (.lit k) jb.2))
-  | .bin op a b => (toOld a).bind (fun ja => (toOld b).bind (fun jb =>
-      if ja.1 = jb.1 then some (ja.1, .bin op ja.2 jb.2) else none))
+      match isLit v with
+      | some k => some (jf.1, .assign jf.2 n (.lit k))
+      | none => (toOld v).bind (fun jv => if jf.1 = jv.1 then some (jf.1, .assign jf.2 n jv.2) else none))
+  | .bin op a b =>
+    match isLit b with
+    | some k => (toOld a).map (fun ja => (ja.1, .bin op ja.2 (.lit k)))
+    | none =>
+      match isLit a with
+      | some k => (toOld b).map (fun jb => (jb.1, .bin op (.lit k) jb.2))
+      | none => (toOld a).bind (fun ja => (toOld b).bind (fun jb =>
+          if ja.1 = jb.1 then some (ja.1, .bin op ja.2 jb.2) else none))
   | .not a => (toOld a).map (fun ja => (ja.1, .not ja.2))
   | _ => none
 
